@@ -27,9 +27,15 @@ CHECKS = {
  "C10": ("pbt", "seeded proptest: header-multiset invariant over every response of the request-mutation campaign",
          "Exploration: 40k (quick) / 3M (thorough) responses (200, 204, 206, 400, 404, 416, built-in pages, form endpoints, unparseable input; both entry points; allow-all and restricted CORS configuration) must carry each hardening / no-cache header exactly once with the stated value.",
          "Statuses rws cannot be driven to from outside (500) are not reached; crashed requests are C04's.", "DESIGN.md §4 C10"),
+ "C11": ("pbt", "seeded proptest over (configuration, Origin, method) with a CORS policy reference model (M-CORS), three routes incl. the full server",
+         "Exploration: 40k (quick) / 2M (thorough) (configuration, Origin, method) triples; the Origin generator derives prefixes, suffixes, substrings, case variants, joined lists and the empty string from the configured origins so that near misses are the common case; judged through Cors::get_headers / Header::get_header_list (environment), Cors::_process (struct) and a Server::process round trip.",
+         "Configured lists without blanks; an unset switch means the default (on).", "DESIGN.md §4 C11"),
  "C14": ("pbt", "seeded proptest round-trip (parse . generate = id) + accept/reject reference model of the request line",
          "Exploration: 50k (quick) / 2M (thorough) generated well-formed requests are serialised by the library and parsed back, compared field by field; 40k / 2M raw messages (request-line near misses, arbitrary UTF-8 heads, junk Content-Length) are judged by the harness's accept/reject model. Failures shrink to a minimal request. Sampling, not proof: absence of a counterexample in the grammar explored.",
          "Trusts Request::generate as the serialiser under test and the harness's request-line model; classes the statement leaves open (lower case, extra spaces, empty target pinned by the unit tests, later non-UTF-8 header lines) assert totality only.", "DESIGN.md §4 C14"),
+ "C16": ("pbt", "seeded proptest round-trip parse(generate(parts, b), b) = parts, browser-shaped differential, structural negatives, echo endpoint",
+         "Exploration: 24k (quick) / 1M (thorough) part lists x RFC 2046 boundaries through the library serialiser, 12k / 500k through the browser serialisation (extract_boundary, '--b' delimiters, '--b--'), 12k / 500k structural negatives (opening/closing delimiter removed, truncation after headers / inside a body, part without headers) and 6k / 200k text forms through the server's echo endpoint.",
+         "Header values without leading/trailing blanks; the boundary parameter does not occur in the serialised parts (the statement's precondition).", "DESIGN.md §4 C16"),
  "C18": ("pbt", "exhaustive enumeration of 0-3-byte groups + seeded proptest round-trip against a reference RFC 4648 encoder",
          "Exploration with an exhaustive core: quick enumerates every input of length 0-2 and a 48^3 boundary cube of 3-byte groups, thorough every input of length 0-3 (16,843,009, flagged exhaustive in evidence); random strings cover every length residue; decoder negatives are sampled. The encoder works group by group, so the exhaustive core decides the encoder for all inputs up to concatenation; the rest is sampled.",
          "Trusts the harness's own 20-line RFC 4648 encoder (self-tested against the RFC vectors at start-up).", "DESIGN.md §4 C18"),
